@@ -9,7 +9,7 @@ F7_WHAT = "empty control-point list computed on buffers that hold a previous pat
 class C16(Property):
     id = "C16"
     lean_module = "RosuModel.Props.C16Full"   # imports Props/C16Surplus.lean (→ Props/C16Exact.lean → Props/C16.lean) and Props/C16Ieee.lean; all in namespace Rosu.C16
-    theorem_modules = ['RosuModel.Props.C16Surplus', 'RosuModel.Props.C16Ieee', 'RosuModel.Props.C16IeeeLen', 'RosuModel.Props.C16IeeeAdj', 'RosuModel.Props.C16IeeeAdjWitness', 'RosuModel.Props.C16IeeeBezierDiverge', 'RosuModel.Props.C16IeeeCut']   # files whose top-level theorems are all audited
+    theorem_modules = ['RosuModel.Props.C16Surplus', 'RosuModel.Props.C16Ieee', 'RosuModel.Props.C16IeeeLen', 'RosuModel.Props.C16IeeeAdj', 'RosuModel.Props.C16IeeeAdjWitness', 'RosuModel.Props.C16IeeeBezierDiverge', 'RosuModel.Props.C16IeeeCut', 'RosuModel.Props.C16IeeeCut2']   # files whose top-level theorems are all audited
     namespace = "Rosu.C16"
     design_ref = "5.16"
     level_text = (
@@ -43,7 +43,8 @@ class C16(Property):
         "Model tied to the code bit-for-bit on every run; IEEE finiteness, monotonicity of what calculate_length returns after a cut / extension, and the float-level geometry are evaluated on the real code by an "
         "oracle written from the property text.")
     technique = "Lean 4 proof (case analysis of the mirrored control flow, generic arithmetic) + bit-exact differential correspondence"
-    required_theorems = ["cut_end_point_err_float32", "cut_end_point_near_segment", "ext_end_point_err_float32", "ext_end_point_near_ray", "cutPoint_eq_reproject",
+    required_theorems = ["cut_param_range_float", "cut_param_nonneg_float", "cut_end_point_near_segment_float", "sqrt_len_err",
+                         "cut_end_point_err_float32", "cut_end_point_near_segment", "ext_end_point_err_float32", "ext_end_point_near_ray", "cutPoint_eq_reproject",
                          "bsplineLoop_diverges_float32", "curve_new_diverges_float32", "curve_new_never_ok_float32", "stuck_not_flat", "stuck_left_half", "stuck_beyond_decode_range",
                          "calculateLength_some", "calculateLength_total", "lengths_head_zero", "dist_exact", "cut_shape",
                          "lastValid_spec", "dist_zero_when_nothing_below", "dist_natural_when_near", "dist_natural_when_none",
@@ -71,8 +72,9 @@ class C16(Property):
             "t = (L - len_k) as f32. For coordinates bounded by 2^19 (decoded paths are) and 0 <= t <= ell(1 + kappa): each coordinate is within 11 * 2^-24 * 2^19 + 2^-20 < 0.344 px of the point of the LINE at parameter t/ell "
             "(cut_end_point_err_float32) and within 1/2 px of a point of the SEGMENT (cut_end_point_near_segment); for an extension within 2^-5 + (5 * 2^-24 + 2^-44) * distance travelled of the ray point "
             "(ext_end_point_err_float32, ext_end_point_near_ray). Kernel-evaluated demo (100,200) -> (107,224), L = 10: the errors are exactly 1/327680 and 1/163840 and the computed point is NOT on the line. "
-            "PARTIAL: the parameter range (t <= ell(1 + 2^-23), t >= 0) is proved over the rationals (param_range_q) and for the floats only under two conversion facts not yet connected to the model "
-            "(cut_param_range_float_partial: Cvt.up exact, Cvt.down one correct rounding)",
+            "The parameter range is CLOSED in Props/C16IeeeCut2.lean over Lemmas/FloatErrCvt.lean (toRat_up: f32 -> f64 is exact; down_rnd: f64 -> f32 is one correct rounding; both on the model's own upBits / downBits via roundRat_rnd) "
+            "and Lemmas/FloatErrSqrt.lean (sqrt_half_ulp_float, sqrt_sq_err_float: core's sqrt is within half an ulp, stated in squares over Q): cut_param_range_float (t <= ell(1 + 2^-23)), cut_param_nonneg_float, "
+            "cut_end_point_near_segment_float (kappa and t >= 0 derived: no hypothesis about conversions left), sqrt_len_err (the f32 length Pos::length computes is within 2^-22 relative, in squares, of the exact one)",
         "totality of Curve::new on finite control points (the property's quantifier 'for every control-point list with finite coordinates')":
             "FALSE for IEEE single precision, kernel-checked (Props/C16IeeeBezierDiverge.lean, sixth session; finding F23): curve_new_never_ok_float32 - the three finite control points "
             "(8388609,0) (8388610,0) (8388610,0) typed Bezier (or perfect curve: collinear, falls back) admit NO fuel on which the model's Curve.new returns a curve, in any mode, for any requested length "
